@@ -67,6 +67,13 @@ def run(rep, tier):
             c06.check_guards(RuleView(rep, {"R-C06-guard": "R-C08-values"}), db, 10 if db.label.startswith("model32") else 4, set())
         for S in structs:
             check_layout(rep, db, S, a, n)
+        # pointer fields (and elements of pointer-array fields) go through the backend hook instantiated for their own static type
+        for f_ in db.functions:
+            if not f_["dep"] and "body" in f_ and f_["n"] == "rlbox::detail::convert_type_non_class":
+                try:
+                    c04.check_route(RuleView(rep, {"R-C04-route": "R-C08-pointers"}), db, f_, "%s | %s" % (db.label, f_["full"][:150]))
+                except Inconclusive as ex:
+                    rep.inconclusive("R-C08-pointers", site(f_), str(ex), "%s | %s" % (db.label, f_["full"][:150]))
         for f in db.functions:
             if f["dep"] or "body" not in f:
                 continue
